@@ -260,6 +260,17 @@ def build_C05(ctx, tier, rnd):
     for j, nm in enumerate(names):
         pre = prefixes[j % len(prefixes)]
         hs.append(('c05m%d' % j, [al.init] + al.seq(pre) + [op_update(ctx, 2, dl='@' + nm), 'op nextnum', 'op curnum'] + al.seq(['u2', 'q'])))
+    # truncation of the uncompressed stream at EVERY length (record boundaries included), alone and after
+    # an earlier attempt for the same number that was rejected (right bytes, wrong hash) or failed
+    step = 1 if tier == 'thorough' else max(1, len(raw) // 24)
+    for cut in list(range(8, len(raw), step)) + [len(raw) - 1]:
+        nm = 'cut%d' % cut
+        open(os.path.join(tmp, 'r.in'), 'wb').write(raw[:cut])
+        subprocess.run([UVH, 'zenc', os.path.join(tmp, 'r.in'), os.path.join(tmp, 'r.out')], check=True, capture_output=True)
+        ctx.add_blob(nm, open(os.path.join(tmp, 'r.out'), 'rb').read())
+        ctx.add_zdec_real(nm)
+        for before in ((), ('uh2',), ('uh2', 'udl2'), ('uj2',)):
+            hs.append(('c05c%d_%d' % (cut, len(hs)), [al.init] + al.seq(PFX['good1']) + al.seq(before) + [op_update(ctx, 2, dl='@' + nm), 'op nextnum'] + al.seq(['u2', 'q'])))
     # hash strings
     h = ctx.p['2']['hash']
     hashes = [h.upper(), h[:-1], h + '0', h + '00', '', 'zz' + h[2:], h[:32], '0' * 64, ' ' + h, h.replace('a', 'A', 1),
@@ -686,6 +697,19 @@ def run_C11(pid, tier, seed, model_ok=True):
             for slot in ('nb', 'lb', 'cb'):
                 if ps[slot] and ps[slot]['num'] in ps['bad']:
                     fails.append((name, npre, 'C11: after the interleaving patch %d is banned AND is the %s patch (outputs %s)' % (ps[slot]['num'], slot, post['out']), ops, header))
+            ppre = pstate(pre)
+            t1kinds = [x.split()[1] for x in oops]
+            if 'failure' in t1kinds and 'start' not in t1kinds and ppre['cb']:
+                n = ppre['cb']['num']
+                if n not in ps['bad'] or (ps['nb'] and ps['nb']['num'] == n):
+                    fails.append((name, npre, 'C11: the boot failure of patch %d was reported during the update, yet afterwards it is %s (outputs %s)' % (
+                        n, 'selected' if ps['nb'] and ps['nb']['num'] == n else 'not banned', post['out']), ops, header))
+            if t1kinds and t1kinds[0] == 'success' and ppre['cb'] and 'failure' not in t1kinds:
+                n = ppre['cb']['num']
+                u0 = gen.parse_op(uop)
+                touched = n in monitors.listed(u0) or (u0['resp'] and u0['resp']['patch'] and u0['resp']['patch']['num'] == n)
+                if not touched and (num(ps['lb']) != n or ps['cb'] is not None):
+                    fails.append((name, npre, 'C11: the boot success of patch %d reported during the update was lost (lb=%s cb=%s)' % (n, num(ps['lb']), num(ps['cb'])), ops, header))
             # C01 on everything handed out after the interleaving
             tail_ops = [gen.parse_op(o) for o in ops[npre + len(oops) + 2:]]
             tail_sts = sts[npre + 1:]
@@ -1174,6 +1198,11 @@ def run_C04(pid, tier, seed, model_ok=True):
                         why = 'banned before the interrupted call'
                     elif pstate(cst)['cb'] and pstate(cst)['cb']['num'] == n:
                         why = 'its own launch was in progress when the process died'
+                    elif kinds[name] == 'same' and pstate(pre_state)['cb'] and pstate(pre_state)['cb']['num'] == n and \
+                            any(x.split()[1] in ('failure', 'init') for x in ops[-1:]):
+                        why = 'its own launch was in progress (and being reported failed) when the process died'
+                    elif n in pstate(rst)['bad']:
+                        why = 'it is on the ban list of the recovered state'
                     elif kinds[name] == 'relchange':
                         why = 'a patch of another release (crash_in_release_change)'
                     if why:
